@@ -14,6 +14,7 @@ def replay_e3(rec):
     part = rec.get("part")
     if part and part != "corpus":
         from . import props2
+        props2._load_more()
         fn = props2.REPLAY.get((rec["property"], part))
         if fn is None:
             return {"violated": None, "note": "no replayer for part %s" % part}
